@@ -47,7 +47,9 @@ def small_scope(focus, quick):
     elif focus == "sem":
         alpha = [op("acq", 1), op("rel", 1), op("acqt", 1, 0, 0), op("acqt", 1, 0, 2), op("sleep", 0, 0, 2)]
         for cap in (0, 1):
-            progs += list(K.enum_small(alpha, 2, 3 if not quick else 2, cap=[cap]))
+            progs += list(K.enum_small(alpha, 2, 2, cap=[cap]))
+            if not quick:
+                progs += list(K.enum_small(alpha[:4], 2, 3, cap=[cap]))
             progs += list(K.enum_small(alpha[:4] if not quick else [alpha[0], alpha[1], alpha[3]], 3, 2, cap=[cap]))
         for t in (1, 2):
             for r in (1, 2, 3, 4):
@@ -96,13 +98,14 @@ def small_scope(focus, quick):
         victims = [[op("sleep", 0, 0, 2), op("onexit", 31)], [op("yield"), op("sleep", 0, 0, 2)], [op("suspend", 3), op("sleep", 0, 0, 1)],
                    [op("join", 1, 0, 2), op("yield")], [op("acqt", 1, 0, 1), op("sleep", 0, 0, 1)], [op("yield"), op("acq", 1), op("yield")]]
         if not quick:
-            ctl += [op("rel", 1), op("kill", 3)]
+            ctl += [op("rel", 1)]
+            victims += [[op("lock", 1), op("sleep", 0, 0, 1), op("unlock", 1)], [op("sleep", 0, 0, 1), op("join", 2, 0, -1)]]
         for c1 in itertools.product(ctl, repeat=2):
             for c2 in itertools.product(ctl, repeat=2):
                 if not any(o["op"] in ("suspend", "resume") for o in c1 + c2):
                     continue
                 for v in victims:
-                    progs.append(new_prog(cap=[0], actors=[list(c1), list(c2), list(v)]))
+                    progs.append(new_prog(cap=[0], rec=[False], actors=[list(c1), list(c2), list(v)]))
     return progs
 
 
